@@ -39,11 +39,11 @@ func (s vC15Support) SupportsDestChain(commontypes.OracleID) (bool, error) {
 	case 1:
 		return true, nil
 	}
-	return false, vErr
+	return false, vErrNext()
 }
 func (s vC15Support) KnownSourceChainsSlice() ([]cciptypes.ChainSelector, error) {
 	if s.knownErr {
-		return nil, vErr
+		return nil, vErrNext()
 	}
 	return append([]cciptypes.ChainSelector{}, s.known...), nil
 }
@@ -116,9 +116,9 @@ func (m *vC15Remote) Fn(dest cciptypes.ChainSelector, src []cciptypes.ChainSelec
 		case "ctx-canceled":
 			return nil, context.Canceled
 		case "nil-info": // an error together with a non-nil (empty) answer
-			return &readerpkg.CurseInfo{CursedSourceChains: map[cciptypes.ChainSelector]bool{}}, vErr
+			return &readerpkg.CurseInfo{CursedSourceChains: map[cciptypes.ChainSelector]bool{}}, vErrNext()
 		}
-		return nil, vErr
+		return nil, vErrNext()
 	}
 	ci := &readerpkg.CurseInfo{CursedSourceChains: map[cciptypes.ChainSelector]bool{}, CursedDestination: m.global || m.dest, GlobalCurse: m.global}
 	for _, c := range src {
@@ -149,7 +149,7 @@ func (m *vC15Remote) realRead(dest cciptypes.ChainSelector, src []cciptypes.Chai
 	}
 	switch m.kind {
 	case "rpc-plain":
-		fac.err = vErr
+		fac.err = vErrNext()
 	case "rpc-ctx":
 		fac.err = context.DeadlineExceeded
 	}
@@ -265,7 +265,7 @@ func TestVerif_C15_observe_commit(t *testing.T) {
 			},
 			NextSeqNumFn: func(chains []cciptypes.ChainSelector) ([]cciptypes.SeqNum, error) {
 				if mode == 1 {
-					return nil, vErr
+					return nil, vErrNext()
 				}
 				out := make([]cciptypes.SeqNum, len(chains))
 				for x, c := range chains {
